@@ -28,7 +28,7 @@ def _solve(args):
 
 
 def run(chk):
-    r = chk.tlc("RunnerMC", "RunnerMC_thorough.cfg" if chk.thorough() else "RunnerMC_quick.cfg", label="runner design")
+    r = chk.tlc("RunnerMC", "RunnerMC_thorough.cfg" if chk.thorough() else "RunnerMC_quick.cfg", coverage=True, label="runner design")
     if r.violated:
         raise MachineryError(f"Runner design violated {r.violated}: {r.counterexample()[:2500]}")
     insts = []
